@@ -124,7 +124,7 @@ theorem dispatch_frame (s s' : St) (hr : Reachable s) (b v : Nat) (m m' : String
   · right
     exact ⟨e1, by rw [h5, upd_other _ _ _ _ hidx, e2]⟩
 
-/-- **unmocked ⇒ panics**: a slot that still holds `notImplement` makes the call panic with the not-implemented class. -/
+/-- (definitional: one arm of `call`) **unmocked ⇒ panics**: a slot that still holds `notImplement` makes the call panic with the not-implemented class. -/
 theorem unmocked_panics (s : St) (v f c : Nat) (m : String) (x : Nat) (hv : s.vars v = .fake f c)
     (hslot : (s.fakes f).fn ((s.types (s.vtyp v)).idxOf m) = .notImpl) : call s v m x = .panic "notimpl" := by
   simp only [call, hv, hslot]
@@ -189,7 +189,7 @@ theorem reset_restores_words (s s' : St) (b c v : Nat) (w : Words)
 example : (run Cfg.fixed (St.init (fun _ => sortMeths ["B", "A"]) (fun _ => 0) (fun _ => .val 5) (fun _ => [0, 0, 0]))
     [.mock 0 0 "A" .ap 0, .mock 0 0 "B" .rt 0, .reset 0]).map (fun s => (s.vars 0, (s.ctxs 0).canceled)) = some (.val 5, true) := by decide
 
-/-- **Cancel through one method's handle restores the whole variable**: `Method(m).Cancel()` on a method mocker that was
+/-- (function-level restatement of `cancelMM`) **Cancel through one method's handle restores the whole variable**: `Method(m).Cancel()` on a method mocker that was
     applied (has a guard) writes the saved words back, cancels the *shared* context (so the next `Interface(&v)` starts a
     fresh mocker and context, for every method) and touches no other variable; on a mocker that was never applied it
     changes no variable at all. -/
@@ -204,7 +204,8 @@ example : (run Cfg.fixed (St.init (fun _ => sortMeths ["B", "A"]) (fun _ => 0) (
     [.mock 0 0 "A" .ap 0, .mock 0 0 "B" .rt 0, .cancelM 0 0 "A", .mock 0 0 "B" .rt 0]).map
       (fun s => (callSlot s 0 "A", callSlot s 0 "B", (s.ctxs 0).canceled)) = some (some .notImpl, some (.stub 2), true) := by decide
 
-/-- **the saved words are the value the variable held before the first mock**: `proxy.Interface` (the only writer of the
+/-- (function-level restatement of `proxyInterface`; the state-level statement is `first_mock_backs_up_current_value`)
+    **the saved words are the value the variable held before the first mock**: `proxy.Interface` (the only writer of the
     backup) stores the variable's current words when the context has no backup yet and never overwrites an existing one
     (`BackUpTo` only the first time). -/
 theorem backup_only_first_time (cfg : Cfg) (s s' : St) (v t c : Nat) (m : String) (k : Nat) (cb : Cb)
@@ -215,7 +216,7 @@ theorem backup_only_first_time (cfg : Cfg) (s s' : St) (v t c : Nat) (m : String
   · cases hs
   · split at hs <;> (cases hs; simp only [upd_same]; cases (s.ctxs c).backup <;> rfl)
 
-/-- **a canceled context never reuses its old itab** (kept handles after `Reset`): when `proxy.Interface` runs on a context
+/-- (function-level restatement of `proxyInterface`) **a canceled context never reuses its old itab** (kept handles after `Reset`): when `proxy.Interface` runs on a context
     that was canceled, the variable gets a *fresh* fake interface whose table has the new callback at the method's index
     and `notImplement` in every other slot — no method keeps a replacement from before the `Reset`. -/
 theorem canceled_context_fresh_itab (cfg : Cfg) (s s' : St) (v t c : Nat) (m : String) (k : Nat) (cb : Cb)
@@ -612,5 +613,45 @@ theorem mock_sequence_slots (b v : Nat) (l : List (String × Kind × Nat)) : ∀
 example : (runOk Cfg.fixed (St.init (fun _ => sortMeths ["B", "A"]) (fun _ => 0) (fun _ => .val 0) (fun _ => [0, 0]))
     [.mock 0 0 "A" .ap 0, .mock 0 0 "B" .rt 0, .mock 0 0 "A" (.wn 3) 0, .mock 0 0 "B" .ap 0]).map
       (fun s => (callSlot s 0 "A", callSlot s 0 "B")) = some (some (.stub 2), some (.stub 3)) := by decide
+
+/-- **the backup is the value the variable holds when its mocking round starts** (state-level, over reachable states):
+    when builder `b` has no mocker for `v` yet, or only a cancelled one (after `Reset` / `Cancel`), a successful mock
+    starts a fresh context whose backup is exactly `v`'s current words — the value `reset_restores_all` later puts back
+    (`backup_only_first_time`: no later mock of the round overwrites it). -/
+theorem first_mock_backs_up_current_value (s s' : St) (hr : Reachable s) (b v : Nat) (m : String) (kind : Kind) (csig : Nat)
+    (hfirst : ∀ j, lookup (bkey Cfg.fixed s v) (s.blds b).mockers = some j → (s.ctxs (s.cms j).ctx).canceled = true)
+    (hs : step Cfg.fixed s (.mock b v m kind csig) = some (s', .ok)) :
+    ∃ f, s'.vars v = .fake f s.nctx ∧ (s'.ctxs s.nctx).backup = some (v, s.vars v) ∧ (s'.ctxs s.nctx).canceled = false := by
+  have hI := reachable_inv hr
+  have hI0 := inv_ncb Cfg.fixed s (s.ncb + 1) hI
+  have hfresh : interfaceOf Cfg.fixed { s with ncb := s.ncb + 1 } b v = freshCM Cfg.fixed { s with ncb := s.ncb + 1 } b v := by
+    simp only [interfaceOf]
+    split
+    · rename_i j hj
+      have := hfirst j hj
+      simp [this]
+    · rfl
+  simp only [step, mockStep] at hs
+  rw [hfresh] at hs
+  have hI1 := inv_freshCM Cfg.fixed { s with ncb := s.ncb + 1 } b v hI0
+  simp only [freshCM] at hs hI1
+  obtain ⟨s2, s3, i, hI2, hfit, g1, g2, g3, g4, g5, hmem, g6, g7, g8, g9, g10, g11, hp, he⟩ :=
+    mockOn_ok Cfg.fixed _ s' s.ncm m kind _ s.ncb hI1 hs
+  simp only [upd_same] at g3 g4 g5
+  have hbk := backup_only_first_time Cfg.fixed s2 s3 _ _ _ m _ _ hp
+  obtain ⟨p1, p2, p3, p4⟩ := proxyInterface_frame Cfg.fixed s2 s3 _ _ _ m _ _ hp
+  have hcn : (s2.ctxs (s2.cms s.ncm).ctx).canceled = false := by rw [g2, g3]; simp
+  obtain ⟨f', g, o1, o2, o3, o4, o5, o6, o7⟩ := proxyInterface_out Cfg.fixed s2 s3 _ _ _ m _ _ hcn hp
+  rw [g3, g4] at hbk o1
+  rw [g3] at p4 hcn
+  have hb0 : (s2.ctxs s.nctx).backup = none := by rw [g2]; simp
+  rw [hb0, g6] at hbk
+  subst he
+  exact ⟨f', by simp only; rw [o1]; exact upd_same _ _ _, by simp only; exact hbk, by simp only; rw [p4]; exact hcn⟩
+
+/-- non-vacuous: second round after a Reset and an assignment backs up the assigned value -/
+example : (run Cfg.fixed (St.init (fun _ => sortMeths ["B", "A"]) (fun _ => 0) (fun _ => .val 0) (fun _ => [0, 0]))
+    [.mock 0 0 "A" .ap 0, .reset 0, .assign 0 5, .mock 0 0 "B" .rt 0, .reset 0]).map (fun s => s.vars 0) = some (.val 5) := by
+  decide
 
 end C07
